@@ -11,11 +11,13 @@ Tie (DESIGN.md 3.2 / section 7 C04):
 """
 import ast
 import itertools
+import random
 import re
 from fractions import Fraction
 
 import common
 from common import enc, dec, err_kind
+from props import c04_hist as H
 
 ID = "C04"
 RULE = ("exhaustive small universe (coefficients in {-1,0,1,2}, lb<=3, la<=3) plus random shapes of order 0..8 "
@@ -80,6 +82,36 @@ def is_float(j):
 
 def is_nonint_frac(j):
     return isinstance(j, str) and Fraction(j).denominator != 1
+
+
+LIST_ROUTES = ("list", "linear", "poly", "cast")        # coefficients given as python lists (pairs = enumerate)
+
+
+def xs_of(c):
+    """the input samples of a case (tagged); long inputs are stored as a pattern:
+    {"n": N, "kind": "quad", "p": [a, b, r, m]}  x[i] = (a*i*i + b*i + r) % m - m//2
+    {"n": N, "kind": "impulse", "at": j, "v": v}  x[j] = v, 0 elsewhere
+    "frac": true -> the integers as Fractions"""
+    if "xs" in c:
+        return c["xs"]
+    p = c["xs_pat"]
+    if p["kind"] == "impulse":
+        v = [0] * p["n"]
+        if p["at"] < p["n"]:
+            v[p["at"]] = p["v"]
+    else:
+        a, b, r, m = p["p"]
+        v = [(a * i * i + b * i + r) % m - m // 2 for i in range(p["n"])]
+    return ["%d/1" % x for x in v] if p.get("frac") else v
+
+
+def gain_of(c):
+    """a[0] after normalisation (tagged), None for an empty denominator"""
+    d = {}
+    for k, v in c["den"]:
+        d[k] = v
+    nz = [k for k, v in d.items() if val(v) != 0]
+    return d[min(nz)] if nz else None
 
 
 # ---------------------------------------------------------------------------------------------
@@ -234,6 +266,18 @@ def _mem_obj(m):
         if how == "stream":
             from audiolazy import Stream
             return Stream(vals)
+        if how == "deque":
+            from collections import deque
+            return deque(vals)
+        if how == "iter":
+            return iter(vals)
+        if how == "substream":              # a Stream subclass with its own __iter__
+            from audiolazy import Stream
+
+            class Sub(Stream):
+                def __iter__(self):
+                    return iter(vals)
+            return Sub([None])
         return list(vals)
     if k == "gen":
         base, step = val(m["base"]), val(m["step"])
@@ -241,6 +285,18 @@ def _mem_obj(m):
     form = m["form"]
     if form == "fixed":
         vals = [val(v) for v in m["vals"]]
+        ret = m.get("ret", "list")
+        if ret == "same":                  # always the very same list object
+            return lambda n: vals
+        if ret == "tuple":
+            return lambda n: tuple(vals)
+        if ret == "gen":
+            return lambda n: (v for v in vals)
+        if ret == "bound":                 # a bound method (callable, not iterable)
+            class Holder(object):
+                def get(self, n):
+                    return list(vals)
+            return Holder().get
         return lambda n: list(vals)
     base, step = val(m["base"]), val(m["step"])
     if form == "arith":
@@ -253,10 +309,19 @@ def _build(c):
     num = [(k, val(v)) for k, v in c["num"]]
     den = [(k, val(v)) for k, v in c["den"]]
     route = c.get("route", "dict")
-    if route in ("list", "linear"):
+    if route in LIST_ROUTES:
         # pairs are enumerate(list) by construction of the case
+        nl, dl = [v for _, v in num], [v for _, v in den]
+        if route == "poly":
+            from audiolazy import Poly
+            return ZFilter(Poly(nl), Poly(dl))
+        if route == "cast":
+            return ZFilter(LinearFilter(nl, dl))
         cls = ZFilter if route == "list" else LinearFilter
-        return cls([v for _, v in num], [v for _, v in den])
+        return cls(nl, dl)
+    if route == "odict":
+        from collections import OrderedDict
+        return ZFilter(OrderedDict(num), OrderedDict(den))
     if route == "zexpr":
         n = sum(v * z ** -k for k, v in num) if num else ZFilter([0])
         d = sum(v * z ** -k for k, v in den)
@@ -264,7 +329,32 @@ def _build(c):
     return ZFilter(dict(num), dict(den))
 
 
+def _xs_obj(xs, how):
+    if how == "iter":
+        return iter(xs)
+    if how == "tuple":
+        return tuple(xs)
+    if how == "gen":
+        return (x for x in xs)
+    if how == "stream":
+        from audiolazy import Stream
+        return Stream(xs)
+    if how == "deque":
+        from collections import deque
+        return deque(xs)
+    if how == "substream":
+        from audiolazy import Stream
+
+        class Sub(Stream):
+            def __iter__(self):
+                return iter(xs)
+        return Sub([None])
+    return xs
+
+
 def impl(c):
+    if c["entry"] == "hist":
+        return H.impl(c)
     import audiolazy.lazy_filters as lf
     captured = []
     orig = lf._exec_eval
@@ -285,9 +375,9 @@ def impl(c):
         m = _mem_obj(c.get("mem"))
         if m is not None:
             kw["memory"] = m
-        xs = [val(x) for x in c["xs"]]
-        how = c.get("xs_as", "list")
-        res = filt(iter(xs) if how == "iter" else xs, **kw)
+        xs = [val(x) for x in xs_of(c)]
+        pristine = list(xs)
+        res = filt(_xs_obj(xs, c.get("xs_as", "list")), **kw)
         stage = "iter"
         out = list(res)
         obs["out"] = [enc(y) for y in out]
@@ -295,6 +385,7 @@ def impl(c):
         obs["src"] = captured[-1] if captured else None
         obs["ir"] = parse_source(captured[-1]) if captured else {"kind": "unparsed", "why": "no source captured"}
         obs["n_exec"] = len(captured)
+        obs["xs_modified"] = not (len(xs) == len(pristine) and all(a is b for a, b in zip(xs, pristine)))
     except Exception as e:
         obs = {"err": err_kind(e), "stage": stage, "msg": str(e)[:80]}
     finally:
@@ -303,11 +394,15 @@ def impl(c):
 
 
 def request(c):
+    if c["entry"] == "hist":
+        return H.request(c)
     r = {"entry": "call",
          "num": [[k, exact(v)] for k, v in c["num"]],
          "den": [[k, exact(v)] for k, v in c["den"]],
          "zero": exact(c["zero"]),
-         "xs": [exact(x) for x in c["xs"]]}
+         "xs": [exact(x) for x in xs_of(c)]}
+    if c.get("fast"):
+        r["fast"] = True
     m = c.get("mem")
     if m is None:
         r["mem"] = None
@@ -334,7 +429,7 @@ U = Fraction(1, 2 ** 52)
 def float_expected(c):
     """does the impl itself inject binary floats on this case?"""
     nums = [v for _, v in c["num"]] + [v for _, v in c["den"]]
-    others = [c["zero"]] + list(c["xs"])
+    others = [c["zero"]] + list(xs_of(c))
     m = c.get("mem")
     if m is not None:
         others += list(m.get("vals", [])) + [m[f] for f in ("base", "step") if f in m]
@@ -344,8 +439,10 @@ def float_expected(c):
         return True
     if is_nonint_frac(c["zero"]):                       # `yield {zero}` of the all-zero filter
         return True
-    if any(not isinstance(v, str) for v in others):     # an int sample: int/int true division by the gain
-        return True
+    if any(not isinstance(v, str) for v in others):     # an int sample: int/int true division by the gain ...
+        g = gain_of(c)
+        if g is None or val(g) not in (1, -1):          # ... unless the gain is 1 / -1 (no division is generated)
+            return True
     return False
 
 
@@ -381,7 +478,7 @@ def _outs_equal(c, got, want, drv_model):
         b = [dec(v) for v in drv_model["b"]]
         a = [dec(v) for v in drv_model["a"]]
         mem = [dec(v) for v in drv_model["mem"]]
-        tol = err_bounds(b, a, mem, dec(exact(c["zero"])), [dec(exact(x)) for x in c["xs"]], want)
+        tol = err_bounds(b, a, mem, dec(exact(c["zero"])), [dec(exact(x)) for x in xs_of(c)], want)
     else:
         tol = [0] * len(want)
     for i, (g, w, t) in enumerate(zip(got, want, tol)):
@@ -393,8 +490,14 @@ def _outs_equal(c, got, want, drv_model):
 
 
 def compare(c, io, drv):
+    if c["entry"] == "hist":
+        return H.compare(c, io, drv)
     out = []
     model, spec = drv["model"], drv["spec"]
+    if c.get("fast") and "out" not in model and "out" in spec:
+        # long case: the generated loop is not executed statement by statement in Lean; model = spec
+        # by theorem filterCall_eq_specCall
+        model = dict(model, out=spec["out"])
     # --- errors -------------------------------------------------------------------------
     if "err" in io:
         if model.get("err") != io["err"]:
@@ -433,6 +536,8 @@ def compare(c, io, drv):
     d = _outs_equal(c, got, [dec(v) for v in spec["out"]], model)
     if d:
         out.append(("spec", "output violates the difference equation: " + d))
+    if io.get("xs_modified"):
+        out.append(("spec", "the caller's input list was modified by the call"))
     return out
 
 
@@ -444,6 +549,8 @@ def _short_memory(c, model):
 
 
 def nontrivial(c, io):
+    if c["entry"] == "hist":
+        return H.nontrivial(c, io)
     return "err" in io or bool(io.get("out"))
 
 
@@ -456,7 +563,7 @@ def _d4_prediction(c, model):
     a = [dec(v) for v in model["a"]]
     mem = [dec(v) for v in model["mem"]]
     zero = dec(exact(c["zero"]))
-    xs = [dec(exact(x)) for x in c["xs"]]
+    xs = [dec(exact(x)) for x in xs_of(c)]
     g = a[0]
     wrong = Fraction(g.numerator) * Fraction(g.denominator)
     ys = []
@@ -471,7 +578,11 @@ def _d4_prediction(c, model):
 
 
 def classify(c, io, drv):
+    if c["entry"] == "hist":
+        return H.classify(c, io, drv)
     model, spec = drv.get("model", {}), drv.get("spec", {})
+    if c.get("fast") and "out" not in model and "out" in spec:
+        model = dict(model, out=spec["out"])
     if "err" in io:
         return "call:raises-%s-at-%s:expected-%s" % (io["err"], io.get("stage"), spec.get("err", "output"))
     if "err" in spec:
@@ -503,6 +614,8 @@ def classify(c, io, drv):
             parts.append("output-length")
         elif _outs_equal(c, [dec(v) for v in io["out"]], [dec(v) for v in spec["out"]], model):
             parts.append("output-values")
+    if io.get("xs_modified"):
+        parts.append("input-list-modified")
     return "call:" + ("+".join(parts) or "coefficients-after-init")
 
 
@@ -564,13 +677,14 @@ def _memory(rng, lm, xkind):
     if r < 0.75:
         n = rng.choice([lm, lm, lm, lm + 2, max(0, lm - 1), 0, lm + 1])
         return {"kind": "iter", "vals": [_sample(rng, xkind) for _ in range(n)],
-                "as": rng.choice(["list", "list", "tuple", "gen", "stream"])}
+                "as": rng.choice(["list", "list", "list", "tuple", "gen", "stream", "deque", "iter", "substream"])}
     if r < 0.85:
         return {"kind": "gen", "base": _sample(rng, xkind), "step": _sample(rng, xkind)}
     form = rng.choice(["arith", "arithrev", "fixed"])
     if form == "fixed":
         n = rng.choice([lm, lm + 1, max(0, lm - 1)])
-        return {"kind": "callable", "form": "fixed", "vals": [_sample(rng, xkind) for _ in range(n)]}
+        return {"kind": "callable", "form": "fixed", "vals": [_sample(rng, xkind) for _ in range(n)],
+                "ret": rng.choice(["list", "same", "tuple", "gen", "bound"])}
     return {"kind": "callable", "form": form, "base": _sample(rng, xkind), "step": _sample(rng, xkind)}
 
 
@@ -586,7 +700,7 @@ def _zero(rng, xkind):
 def _shape(rng, max_order):
     """one random filter shape: (route, num pairs, den pairs)"""
     ctype = rng.choice(["int", "int", "int", "frac", "float", "mixed"])
-    route = rng.choice(["list", "list", "dict", "zexpr", "linear"])
+    route = rng.choice(["list", "list", "list", "dict", "dict", "zexpr", "zexpr", "linear", "linear", "poly", "cast", "odict"])
     lb = rng.choice([0, 1, 1, 2, 3, rng.randint(0, max_order + 1)])
     la = rng.choice([1, 1, 2, 3, rng.randint(1, max_order + 1)])
     sparse = rng.random() < 0.25
@@ -607,7 +721,7 @@ def _shape(rng, max_order):
         b = [0] * lead + b           # keeps the filter causal after normalisation
     num = [[k, v] for k, v in enumerate(b)]
     den = [[k, v] for k, v in enumerate(a)]
-    if route in ("dict", "zexpr"):
+    if route in ("dict", "zexpr", "odict"):
         num = [[k, v] for k, v in num if val(v) != 0 or rng.random() < 0.3]
         den = [[k, v] for k, v in den if val(v) != 0 or rng.random() < 0.3]
         off = rng.choice([0, 0, 0, 1, -1, 3, -2])            # common shift: same transfer function
@@ -628,7 +742,95 @@ def _case(rng, route, num, den, max_len, xkind=None):
     return {"entry": "call", "route": route, "num": num, "den": den,
             "mem": _memory(rng, lm, xkind), "zero": _zero(rng, xkind),
             "xs": [_sample(rng, xkind) for _ in range(n)],
-            "xs_as": rng.choice(["list", "iter"])}
+            "xs_as": rng.choice(["list", "list", "iter", "tuple", "gen", "stream", "deque", "substream"])}
+
+
+# ---- long runs / large orders (DESIGN section 14: behaviour that only differs at large sizes) -------------
+LONG_DELAYS = [31, 32, 33, 63, 64, 65, 127, 128, 129, 255, 256, 257]
+
+
+def _pat(rng, n, frac=False):
+    if rng.random() < 0.3:
+        return {"n": n, "kind": "impulse", "at": rng.choice([0, 0, 1, 2]), "v": rng.choice([1, 1, 3, -2]), "frac": frac}
+    return {"n": n, "kind": "quad", "p": [rng.randint(1, 9), rng.randint(0, 30), rng.randint(0, 30), rng.choice([7, 11, 13, 17])],
+            "frac": frac}
+
+
+def _long_case(rng, shape, D, n=None):
+    """an exact (integer) case of large order D or long input: int coefficients, gain +-1 (no division is
+    generated) or Fraction samples; compared exactly"""
+    frac = rng.random() < 0.25
+    g = rng.choice([1, 1, -1]) if not frac else rng.choice([1, -1, 2, -2])
+    sm = (lambda: "%d/1" % rng.randint(-5, 5)) if frac else (lambda: rng.randint(-5, 5))
+    mem = None
+    if shape == "fir-sparse":            # feed-forward comb: x[n] + c*x[n-D] (+ a tap in between)
+        num = [[0, rng.choice([1, 1, -1, 2])], [D, rng.choice([1, -1, 2, 3, -2])]]
+        if rng.random() < 0.4:
+            num.insert(1, [rng.randint(1, D - 1), rng.choice([1, -1, 2])])
+        den = [[0, g]]
+        route = rng.choice(["dict", "dict", "zexpr", "odict"])
+    elif shape == "iir-sparse":          # feedback comb: y[n] = x[n] -+ y[n-D]
+        num = [[0, rng.choice([1, 2, -1])]] + ([[rng.randint(1, D), rng.choice([1, -1, 3])]] if rng.random() < 0.5 else [])
+        den = [[0, g], [D, rng.choice([1, -1])]]
+        if rng.random() < 0.3:
+            den.insert(1, [rng.randint(1, D - 1), rng.choice([1, -1])])
+        route = rng.choice(["dict", "dict", "zexpr", "odict"])
+        if rng.random() < 0.6:
+            mem = {"kind": "iter", "vals": [sm() for _ in range(D + rng.choice([0, 0, 1]))],
+                   "as": rng.choice(["list", "list", "tuple", "gen"])}
+    elif shape == "fir-dense":           # D+1 small integer coefficients
+        num = [[k, rng.choice([1, -1, 2, 0, 3, -2])] for k in range(D + 1)]
+        num[D][1] = rng.choice([1, -1, 2, 3])
+        den = [[0, g]]
+        route = rng.choice(["list", "list", "linear", "poly"])
+    elif shape == "both":                # feed-forward and feedback parts of (different) large orders
+        D2 = rng.choice([D, D - 1, D + 1, max(1, D // 2)])
+        num = [[0, 1], [D, rng.choice([1, -1, 2])]]
+        den = [[0, g], [D2, rng.choice([1, -1])]]
+        route = rng.choice(["dict", "zexpr"])
+        if rng.random() < 0.5:
+            mem = {"kind": "iter", "vals": [sm() for _ in range(D2)], "as": "list"}
+    else:                                # "long-input": small filters, thousands of samples
+        k = rng.choice(["acc", "osc", "fir", "comb"])
+        if k == "acc":
+            num, den = [[0, 1]], [[0, g], [1, -g]]
+        elif k == "osc":
+            num, den = [[0, 1], [1, rng.choice([1, 2])]], [[0, g], [1, -g], [2, g]]
+        elif k == "fir":
+            num, den = [[j, rng.choice([1, -2, 3, 5])] for j in range(rng.randint(2, 5))], [[0, g]]
+        else:
+            num, den = [[0, 1], [D, 2]], [[0, g], [D, rng.choice([1, -1])]]
+        route = rng.choice(["list", "dict", "zexpr"]) if k != "comb" else "dict"
+        if route == "list":
+            dn, dd = dict(map(tuple, num)), dict(map(tuple, den))
+            num = [[j, dn.get(j, 0)] for j in range(max(dn) + 1)]
+            den = [[j, dd.get(j, 0)] for j in range(max(dd) + 1)]
+        if rng.random() < 0.4:
+            mem = {"kind": "iter", "vals": [sm() for _ in range(_lm_of(den))], "as": "list"}
+    if n is None:
+        n = rng.choice([D + 3, 2 * D + 5, 3 * D + 7])
+    return {"entry": "call", "route": route, "num": num, "den": den, "mem": mem,
+            "zero": rng.choice([0, 0, 0, 7, -1]) if not frac else rng.choice(["0/1", "0/1", "7/1"]),
+            "xs_pat": _pat(rng, n, frac), "xs_as": rng.choice(["list", "list", "iter", "tuple", "stream"]),
+            "fast": True, "long": shape}
+
+
+def _gen_long(rng, tier, scale):
+    quick = tier == "quick"
+    out = []
+    reps = (1 if quick else 6) * scale
+    for _ in range(reps):
+        for D in LONG_DELAYS:
+            for shape in ("fir-sparse", "iir-sparse", "fir-dense", "both"):
+                if quick and shape == "fir-dense" and D > 130 and rng.random() < 0.5:
+                    continue
+                out.append(_long_case(rng, shape, D))
+        for n in ([1000, 1024, 1025, 2048, 4096, 4097, 5000] if quick else [1000, 1023, 1024, 1025, 2047, 2048, 2049, 4095, 4096, 4097, 8192, 8193, 10000]):
+            out.append(_long_case(rng, "long-input", rng.choice([1, 2, 3, 64, 100]), n=n))
+        for D in ([511, 512, 513] if not quick else [rng.choice([511, 512, 513])]):
+            out.append(_long_case(rng, "fir-sparse", D))
+            out.append(_long_case(rng, "iir-sparse", D))
+    return out
 
 
 def generate(rng, tier, scale=1):
@@ -670,6 +872,9 @@ def generate(rng, tier, scale=1):
             num = [[k, v] for k, v in dict((k, v) for k, v in num).items()]
             den = [[k, v] for k, v in dict((k, v) for k, v in den).items()]
         cases.append(_case(rng, route, num, den, 6, "frac"))
+    # long runs / large orders, then histories (own random streams: the batches above keep their draws)
+    cases.extend(_gen_long(random.Random(rng.random()), tier, scale))
+    cases.extend(H.generate(random.Random(rng.random()), tier, scale))
     return cases
 
 
@@ -677,11 +882,23 @@ def generate(rng, tier, scale=1):
 # evidence histograms
 # ---------------------------------------------------------------------------------------------
 def tally(eng, c, io):
+    eng.count("entry", c["entry"] + ("/long" if c.get("long") else ""))
+    if c["entry"] == "hist":
+        return H.tally(eng, c, io)
+    if c.get("long"):
+        eng.count("long_shape", c["long"])
+        ks = [k for k, v in c["num"] + c["den"] if val(v) != 0]
+        eng.count("long_order", max(ks) - min(ks) if ks else 0)
+        n = len(xs_of(c))
+        eng.count("long_input_len", "<100" if n < 100 else "100-999" if n < 1000 else "1000-4095" if n < 4096 else "4096+")
+        eng.count("long_samples", "Fraction" if c["xs_pat"].get("frac") else "int")
+    eng.count("xs_flavour", c.get("xs_as", "list"))
     eng.count("route", c.get("route", "dict"))
     m = c.get("mem")
-    eng.count("memory", "none" if m is None else (m["kind"] + ":" + (m.get("form") or (m.get("as", "list") if m["kind"] == "iter" else "endless"))))
+    eng.count("memory", "none" if m is None else (m["kind"] + ":" + ((m.get("form") + ("/" + m["ret"] if "ret" in m else "")) if m.get("form")
+                                                                     else (m.get("as", "list") if m["kind"] == "iter" else "endless"))))
     eng.count("zero", "zero=0" if val(c["zero"]) == 0 else "zero!=0")
-    eng.count("len_x", min(len(c["xs"]), 16))
+    eng.count("len_x", min(len(xs_of(c)), 16))
     eng.count("regime", "float(bounded)" if float_expected(c) else "exact")
     if "err" in io:
         eng.count("impl_error", "%s@%s" % (io["err"], io.get("stage")))
@@ -721,6 +938,34 @@ def _simplify_num(j):
 
 
 def shrink(c):
+    if c["entry"] == "hist":
+        for d in H.shrink(c):
+            yield d
+        return
+    if "xs_pat" in c:
+        p = c["xs_pat"]
+        n = p["n"]
+        if n <= 12:
+            d = dict(c, xs=xs_of(c))
+            del d["xs_pat"]
+            yield d
+        for m in sorted({n // 2, (3 * n) // 4, n - 8, n - 1}):
+            if 0 <= m < n:
+                yield dict(c, xs_pat=dict(p, n=m))
+        if p["kind"] != "impulse":
+            yield dict(c, xs_pat={"n": n, "kind": "impulse", "at": 0, "v": 1, "frac": p.get("frac", False)})
+        c = dict(c, xs=[])           # the remaining candidates keep the pattern
+        pat = True
+    else:
+        pat = False
+    for d in _shrink_rest(c):
+        if pat:
+            d = dict(d)
+            d.pop("xs", None)
+        yield d
+
+
+def _shrink_rest(c):
     xs = c["xs"]
     if xs:
         yield dict(c, xs=xs[:-1])
@@ -748,7 +993,7 @@ def shrink(c):
         for i in range(len(ps)):
             if side == "den" and len(ps) == 1:
                 break
-            if c.get("route") in ("list", "linear"):
+            if c.get("route") in LIST_ROUTES:
                 if i == len(ps) - 1:
                     yield dict(c, **{side: ps[:-1]})
             else:
@@ -756,11 +1001,27 @@ def shrink(c):
         for i, (k, v) in enumerate(ps):
             for s in _simplify_num(v):
                 yield dict(c, **{side: ps[:i] + [[k, s]] + ps[i + 1:]})
-    if c.get("route") in ("zexpr", "linear"):
-        yield dict(c, route="dict" if c["route"] == "zexpr" else "list")
+    if c.get("route") in ("zexpr", "linear", "poly", "cast", "odict"):
+        yield dict(c, route="dict" if c["route"] in ("zexpr", "odict") else "list")
+    if c.get("mem") is not None and "ret" in c["mem"] and c["mem"]["ret"] != "list":
+        yield dict(c, mem=dict(c["mem"], ret="list"))
+    if c.get("xs_as") not in ("list", "iter", None):
+        yield dict(c, xs_as="list")
+    # large orders: move the highest delay down (dict-like routes), keeping it a case of the same kind
+    if c.get("route") not in LIST_ROUTES:
+        for side in ("num", "den"):
+            ps = c[side]
+            if ps:
+                j = max(range(len(ps)), key=lambda t: ps[t][0])
+                k = ps[j][0]
+                for nk in sorted({k // 2, k - 1}):
+                    if nk > 0 and nk != k and all(q[0] != nk for q in ps):
+                        yield dict(c, **{side: ps[:j] + [[nk, ps[j][1]]] + ps[j + 1:]})
 
 
 def neighbours(c):
+    if c["entry"] == "hist" or c.get("long"):
+        return
     for side in ("num", "den"):
         ps = c[side]
         for i, (k, v) in enumerate(ps):
